@@ -828,3 +828,51 @@ Proof.
     + rewrite B4, A4. auto.
   - inversion E3; subst s3. rewrite A4. auto.
 Qed.
+
+(* ---- entries when a block is taken out: the next block is promoted exactly when the removed block was an entry and the next block
+   is code of the same function ---- *)
+Definition promotes (s : st) (b : nat) (nx : option nat) (f : nat) (n : nat) : Prop :=
+  nx = Some n /\ In b (flist (fentries s) f) /\ is_code s n = true /\ in_same_function s b n = true.
+
+Theorem entries_after_removal s b nx f :
+  FInv s -> is_code s b = true -> aget b (fbb s) = Some f ->
+  forall x, In x (flist (fentries (update_functions_aux_data s b nx)) f) <->
+            x <> b /\ (In x (flist (fentries s) f) \/ promotes s b nx f x).
+Proof.
+  intros HI Hc Hb x. unfold update_functions_aux_data. rewrite Hc. cbn [negb]. rewrite Hb.
+  set (s1 := match fentries s, nx with
+             | _ :: _, Some n => if nmem b (match aget f (fentries s) with Some l => l | None => [] end) && is_code s n && in_same_function s b n
+                                 then set_funcs s (fblocks s) (aset f (nadd n (match aget f (fentries s) with Some l => l | None => [] end)) (fentries s)) (fnames s) (fbb s)
+                                 else s
+             | _, _ => s end).
+  assert (H1 : fbb s1 = fbb s /\ fblocks s1 = fblocks s /\ NoDup (map fst (fentries s1)) /\
+               forall y, In y (flist (fentries s1) f) <-> In y (flist (fentries s) f) \/ promotes s b nx f y).
+  { unfold s1, promotes. destruct (fentries s) as [|p0 t0] eqn:Efe.
+    - split; [reflexivity|]. split; [reflexivity|]. split; [rewrite Efe; constructor|]. intros y. rewrite Efe. unfold flist. cbn. intuition.
+    - rewrite <- Efe in *. destruct nx as [n|].
+      + fold (flist (fentries s) f). destruct (nmem b (flist (fentries s) f)) eqn:E1; cbn [andb].
+        * destruct (is_code s n) eqn:E2; cbn [andb].
+          -- destruct (in_same_function s b n) eqn:E3.
+             ++ cbn [fbb fblocks fentries set_funcs]. split; [reflexivity|]. split; [reflexivity|]. split; [apply aset_keys_nodup, (fi_nd_fe s HI)|].
+                intros y. unfold flist at 1. rewrite aget_aset_same. rewrite nadd_In. apply nmem_In in E1. split.
+                ** intros [->|H]; [right; repeat split; auto|left; exact H].
+                ** intros [H|(A & _)]; [right; exact H|inversion A; left; reflexivity].
+             ++ split; [reflexivity|]. split; [reflexivity|]. split; [exact (fi_nd_fe s HI)|]. intros y. split; [auto|]. intros [H|(A & B & C & D)]; [exact H|]. inversion A; subst. congruence.
+          -- split; [reflexivity|]. split; [reflexivity|]. split; [exact (fi_nd_fe s HI)|]. intros y. split; [auto|]. intros [H|(A & B & C & D)]; [exact H|]. inversion A; subst. congruence.
+        * split; [reflexivity|]. split; [reflexivity|]. split; [exact (fi_nd_fe s HI)|]. intros y. split; [auto|]. intros [H|(A & B & C & D)]; [exact H|].
+          apply nmem_In in B. congruence.
+      + split; [reflexivity|]. split; [reflexivity|]. split; [exact (fi_nd_fe s HI)|]. intros y. split; [auto|]. intros [H|(A & _)]; [exact H|discriminate]. }
+  destruct H1 as (F1 & F2 & F3 & F4).
+  unfold remove_function_block_aux. rewrite F1, Hb.
+  pose proof (rf_upd_spec b f (fentries s1) F3) as He. destruct (rf_upd b f (fentries s1)) as [fe left1].
+  assert (F2nd : NoDup (map fst (fblocks s1))) by (rewrite F2; exact (fi_nd_fb s HI)).
+  pose proof (rf_upd_spec b f (fblocks s1) F2nd) as Hbk. destruct (rf_upd b f (fblocks s1)) as [fb left2].
+  destruct He as (E1 & E2 & E3 & E4). destruct Hbk as (B1 & B2 & B3 & B4).
+  destruct (left1 || left2) eqn:El; cbn [fentries set_funcs].
+  - rewrite E2, Nat.eqb_refl, ndel_In, F4. tauto.
+  - rewrite flist_adel by exact E1. rewrite Nat.eqb_refl. apply orb_false_iff in El. destruct El as (L1 & L2).
+    assert (Hnil : ndel b (flist (fentries s1) f) = []).
+    { remember (ndel b (flist (fentries s1) f)) as l0 eqn:En. destruct l0; [reflexivity|]. exfalso. assert (left1 = true) by (apply E4; discriminate). congruence. }
+    split; [intros []|]. intros (Hx & H). assert (In x (ndel b (flist (fentries s1) f))) by (apply ndel_In; split; [apply F4, H|exact Hx]).
+    rewrite Hnil in H0. destruct H0.
+Qed.
